@@ -386,7 +386,7 @@ void Exec::step(const Step &s) {
     next_sent_before = next_sent;
     oom_client = oom_op_valid ? pick(oom_op.a) : -1;
     oom_armed = true;
-    if (k >= 0) { w.oom_at = (int)k; oom_retry_possible = true; }
+    if (k >= 0) { w.oom_at = (int)k; w.oom_gap = (int)plan.C("oom.gap", -1); oom_retry_possible = true; }
     else w.measure_allocs = true;
     w.bus_iterate((int)s.N(0, 4), (uint64_t)s.N(1, 1), simk::IoProfile());
     w.measure_allocs = false;
@@ -1232,17 +1232,32 @@ core::RunResult execute(const core::Plan &plan, bool log) {
   base.counters["oom_points"] = (uint64_t)n;
   base.counters["oom_runs"] = 0;
   std::set<uint64_t> hashes;
-  for (long k = 0; k < n; k++) {
-    if (getenv("SIM_OOMK_TRACE")) { printf("OOMK %ld\n", k); fflush(stdout); }
+  // "... and additionally every pair of failing allocations for the short operations": for operations of at most
+  // PAIR_MAX allocations every (k, gap) - a second failure gap allocations after the first (hook H5)
+  const long PAIR_MAX = 14, GAP_MAX = 10;
+  long pinned_gap = plan.C("oom.gap", -2);       // a replay / minimisation pins the pair
+  std::vector<std::pair<long, long>> points;
+  for (long k = 0; k < n; k++) points.push_back({k, -1});
+  if (n <= PAIR_MAX && plan.C("oom.pairs", 1) != 0)
+    for (long k = 0; k < n; k++) for (long g = 0; g <= GAP_MAX; g++) points.push_back({k, g});
+  else if (n <= 120 && plan.C("oom.pairs", 1) != 0)
+    // longer operations: a sample of pairs (every other first failure; the next allocation, and two further ones)
+    for (long k = 0; k < n; k += 2) for (long g : {0L, 3L, 9L}) points.push_back({k, g});
+  if (pinned_gap >= -1) { points.clear(); for (long k = 0; k < n; k++) points.push_back({k, pinned_gap}); }
+  for (auto &pt : points) {
+    long k = pt.first;
+    if (getenv("SIM_OOMK_TRACE")) { printf("OOMK %ld %ld\n", k, pt.second); fflush(stdout); }
     p.cfg["oom.k"] = std::to_string(k);
+    p.cfg["oom.gap"] = std::to_string(pt.second);
     Exec ex(p, false);
     core::RunResult r = ex.run();
     base.counters["oom_runs"]++;
+    if (pt.second >= 0) base.counters["oom_pair_runs"]++;
     hashes.insert(r.hash);
     for (auto &kv : r.counters)
       if (kv.first.compare(0, 4, "oom_") == 0 && kv.first != "oom_n") base.counters[kv.first] += kv.second;
     if (!r.ok) {
-      r.detail = "[oom.k=" + std::to_string(k) + "] " + r.detail;
+      r.detail = "[oom.k=" + std::to_string(k) + (pt.second >= 0 ? ",gap=" + std::to_string(pt.second) : std::string("")) + "] " + r.detail;
       r.counters = base.counters;
       if (log) {   // show the failing execution, not the fault-free one
         Exec again(p, true);
